@@ -664,6 +664,7 @@ func (e *c12Env) one(opi int, op *c12Op, storeKind string) {
 		}
 	}
 	fatals := takeFatals()
+	failure = strings.ReplaceAll(failure, c.Dir, "$DIR") // scratch paths differ between processes
 	c.Log.Add("%s -> produced=%v reap_ok=%v failure=%q fatal_exits=%d", tag, out != nil, reapOK, trunc(failure, 160), len(fatals))
 
 	// ---- judge
